@@ -109,6 +109,15 @@ def _observe(job):
         rec['rep'] = [flog(r).tolist() for r in reps]
         rec['logp'] = O.fx(under(np.asarray(m.log_probability_density(rows.copy()), dtype=float)), LS).tolist()
         rec['logref'] = rec['rep'][0]
+        # log_probability_density is the logarithm of probability_density wherever the latter is positive - subnormal values
+        # included - and minus infinity where it is exactly 0 (compared as doubles, not through the fixed-point tables)
+        with np.errstate(all='ignore'):
+            pdv = np.asarray(m.probability_density(rows.copy()), dtype=float)
+            lpv = np.asarray(m.log_probability_density(rows.copy()), dtype=float)
+            want = np.log(pdv)
+        okl = (np.isneginf(want) & np.isneginf(lpv)) | (np.isfinite(want) & np.isfinite(lpv) & (np.abs(lpv - want) <= 1e-9 * np.maximum(1.0, np.abs(want))))
+        if not np.all(okl | np.isnan(want)):
+            rec['err'] = 'log_pdf-is-not-the-logarithm-of-pdf'
         Z = scores(m, rows, cols)
         if np.linalg.cond(R) < 1e4:
             lm = log_mvn(Z, R)
